@@ -97,7 +97,7 @@ var condExprs = []string{
 	"m[\"k\"] == 'v'", "!(a || b) ? c : d", "x > 1.5e3 && y <= 0x1F", "s.startsWith(\"a b\")",
 	"a ==\n    b", "size(l) >= 1u", "-x * (y / z) - 1", "true || false || null == x",
 	"b\"bytes\" == y", "r'raw' == y", "x == 1",
-	"name != \"a\\\"b\"", "s == 'it\\'s'", "x == \"5\\\"\" || y == \"\\\\\"",
+	"", " ", "name != \"a\\\"b\"", "s == 'it\\'s'", "x == \"5\\\"\" || y == \"\\\\\"",
 }
 
 func (g *DSLGen) Doc(modular bool) *Doc {
@@ -237,6 +237,9 @@ func (g *DSLGen) relDef(depth int, tnames, rnames, conds []string, allowDirect b
 	n := 1
 	if op != "butnot" {
 		n = 1 + r.Intn(3)
+		if r.Intn(7) == 0 {
+			n = 4 + r.Intn(7) // 5-11 operands: slices that have grown once or twice (spare capacity, re-allocation points)
+		}
 		if g.Big && r.Intn(4) == 0 {
 			n = 13 + r.Intn(6)
 		}
